@@ -41,6 +41,9 @@ type Universe struct {
 	Fields   []string
 	Invalid  int // percent of deliberately odd arguments
 	Modelled bool
+	// State, when set, is the catalogue the next command will be applied to: ids that exist there
+	// become likely arguments (a command on a shard / group / node id succeeds only if it exists)
+	State func() *meta.Data
 }
 
 func NewUniverse(r *hx.Rng) *Universe {
@@ -74,6 +77,96 @@ func (u *Universe) id(max int) uint64 {
 		return []uint64{0, 99, math.MaxUint64}[u.R.Intn(3)]
 	}
 	return uint64(1 + u.R.Intn(max))
+}
+
+// idOf draws an id of the given kind ("sg", "shard", "ig", "index", "node", "metanode",
+// "sqlnode"): 60 % of the time one that exists in the current catalogue (if the harness gave
+// access to it), otherwise as `id` does.
+func (u *Universe) idOf(kind string, max int) uint64 {
+	if u.State != nil && u.R.Chance(60) {
+		if ids := existingIDs(u.State(), kind); len(ids) > 0 {
+			return ids[u.R.Intn(len(ids))]
+		}
+	}
+	return u.id(max)
+}
+
+// dbRp draws a (database, policy) pair: 55 % of the time one that exists in the current
+// catalogue (if the harness gave access to it), otherwise two independent names.
+func (u *Universe) dbRp() (string, string) {
+	if u.State != nil && u.R.Chance(55) {
+		d := u.State()
+		if dbs := sortedKeys(d.Databases); len(dbs) > 0 {
+			db := dbs[u.R.Intn(len(dbs))]
+			if rps := sortedKeys(d.Databases[db].RetentionPolicies); len(rps) > 0 {
+				return db, rps[u.R.Intn(len(rps))]
+			}
+		}
+	}
+	return u.db(), u.rp()
+}
+
+// lastGroupOf: the id of the last shard group of a policy (what ReSharding must name), 0 if none.
+func (u *Universe) lastGroupOf(db, rp string) uint64 {
+	if u.State == nil {
+		return 0
+	}
+	d := u.State()
+	dbi := d.Databases[db]
+	if dbi == nil {
+		return 0
+	}
+	rpi := dbi.RetentionPolicy(rp)
+	if rpi == nil || len(rpi.ShardGroups) == 0 {
+		return 0
+	}
+	return rpi.ShardGroups[len(rpi.ShardGroups)-1].ID
+}
+
+func existingIDs(d *meta.Data, kind string) []uint64 {
+	var out []uint64
+	switch kind {
+	case "node":
+		for _, n := range d.DataNodes {
+			out = append(out, n.ID)
+		}
+	case "metanode":
+		for _, n := range d.MetaNodes {
+			out = append(out, n.ID)
+		}
+	case "sqlnode":
+		for _, n := range d.SqlNodes {
+			out = append(out, n.ID)
+		}
+	default:
+		for _, dbk := range sortedKeys(d.Databases) {
+			db := d.Databases[dbk]
+			for _, rk := range sortedKeys(db.RetentionPolicies) {
+				rp := db.RetentionPolicies[rk]
+				for i := range rp.ShardGroups {
+					if kind == "sg" {
+						out = append(out, rp.ShardGroups[i].ID)
+					}
+					if kind == "shard" {
+						for _, sh := range rp.ShardGroups[i].Shards {
+							out = append(out, sh.ID)
+						}
+					}
+				}
+				for i := range rp.IndexGroups {
+					if kind == "ig" {
+						out = append(out, rp.IndexGroups[i].ID)
+					}
+					if kind == "index" {
+						for _, ix := range rp.IndexGroups[i].Indexes {
+							out = append(out, ix.ID)
+						}
+					}
+				}
+			}
+		}
+	}
+	return out
 }
 
 // instants of interest, in hours since the epoch (negative = before 1970)
@@ -342,22 +435,22 @@ func init() {
 			Text: fmt.Sprintf("CreateRetentionPolicy %s %s %s", tok(db), b01(def), t)}
 	})
 	reg("DropRetentionPolicy", T("DropRetentionPolicyCommand"), 2, func(u *Universe) Cmd {
-		db, rp := u.db(), u.rp()
+		db, rp := u.dbRp()
 		v := &proto2.DropRetentionPolicyCommand{Database: ps(db), Name: ps(rp)}
 		return Cmd{PB: mk(T("DropRetentionPolicyCommand"), proto2.E_DropRetentionPolicyCommand_Command, v), Text: fmt.Sprintf("DropRetentionPolicy %s %s", tok(db), tok(rp))}
 	})
 	reg("MarkRetentionPolicyDelete", T("MarkRetentionPolicyDeleteCommand"), 2, func(u *Universe) Cmd {
-		db, rp := u.db(), u.rp()
+		db, rp := u.dbRp()
 		v := &proto2.MarkRetentionPolicyDeleteCommand{Database: ps(db), Name: ps(rp)}
 		return Cmd{PB: mk(T("MarkRetentionPolicyDeleteCommand"), proto2.E_MarkRetentionPolicyDeleteCommand_Command, v), Text: fmt.Sprintf("MarkRetentionPolicyDelete %s %s", tok(db), tok(rp))}
 	})
 	reg("SetDefaultRetentionPolicy", T("SetDefaultRetentionPolicyCommand"), 3, func(u *Universe) Cmd {
-		db, rp := u.db(), u.rp()
+		db, rp := u.dbRp()
 		v := &proto2.SetDefaultRetentionPolicyCommand{Database: ps(db), Name: ps(rp)}
 		return Cmd{PB: mk(T("SetDefaultRetentionPolicyCommand"), proto2.E_SetDefaultRetentionPolicyCommand_Command, v), Text: fmt.Sprintf("SetDefaultRetentionPolicy %s %s", tok(db), tok(rp))}
 	})
 	reg("UpdateRetentionPolicy", T("UpdateRetentionPolicyCommand"), 6, func(u *Universe) Cmd {
-		db, rp := u.db(), u.rp()
+		db, rp := u.dbRp()
 		v := &proto2.UpdateRetentionPolicyCommand{Database: ps(db), Name: ps(rp)}
 		newName := "_"
 		if u.R.Chance(12) {
@@ -387,7 +480,8 @@ func init() {
 				opt64(v.HotDuration), opt64(v.WarmDuration), opt64(v.IndexGroupDuration), opt64(v.IndexColdDuration), b01(def))}
 	})
 	reg("CreateMeasurement", T("CreateMeasurementCommand"), 10, func(u *Universe) Cmd {
-		db, rp, m := u.db(), u.rp(), u.mst()
+		db, rp := u.dbRp()
+		m := u.mst()
 		ski, st := u.ski()
 		eng := uint32(0)
 		if u.R.Chance(12) {
@@ -419,24 +513,28 @@ func init() {
 		return Cmd{PB: mk(T("CreateMeasurementCommand"), proto2.E_CreateMeasurementCommand_Command, v), Text: txt, Desc: desc}
 	})
 	reg("AlterShardKey", T("AlterShardKeyCmd"), 3, func(u *Universe) Cmd {
-		db, rp, m := u.db(), u.rp(), u.mst()
+		db, rp := u.dbRp()
+		m := u.mst()
 		ski, st := u.ski()
 		v := &proto2.AlterShardKeyCmd{DBName: ps(db), RpName: ps(rp), Name: ps(m), Ski: ski}
 		return Cmd{PB: mk(T("AlterShardKeyCmd"), proto2.E_AlterShardKeyCmd_Command, v), Text: fmt.Sprintf("AlterShardKey %s %s %s %s", tok(db), tok(rp), tok(m), st)}
 	})
 	reg("UpdateSchema", T("UpdateSchemaCommand"), 8, func(u *Universe) Cmd {
-		db, rp, m := u.db(), u.rp(), u.mst()
+		db, rp := u.dbRp()
+		m := u.mst()
 		fs, ft := u.schema()
 		v := &proto2.UpdateSchemaCommand{Database: ps(db), RpName: ps(rp), Measurement: ps(m), FieldToCreate: fs}
 		return Cmd{PB: mk(T("UpdateSchemaCommand"), proto2.E_UpdateSchemaCommand_Command, v), Text: fmt.Sprintf("UpdateSchema %s %s %s %s", tok(db), tok(rp), tok(m), ft)}
 	})
 	reg("MarkMeasurementDelete", T("MarkMeasurementDeleteCommand"), 3, func(u *Universe) Cmd {
-		db, rp, m := u.db(), u.rp(), u.mst()
+		db, rp := u.dbRp()
+		m := u.mst()
 		v := &proto2.MarkMeasurementDeleteCommand{Database: ps(db), Policy: ps(rp), Measurement: ps(m)}
 		return Cmd{PB: mk(T("MarkMeasurementDeleteCommand"), proto2.E_MarkMeasurementDeleteCommand_Command, v), Text: fmt.Sprintf("MarkMeasurementDelete %s %s %s", tok(db), tok(rp), tok(m))}
 	})
 	reg("DropMeasurement", T("DropMeasurementCommand"), 3, func(u *Universe) Cmd {
-		db, rp, m := u.db(), u.rp(), u.mst()
+		db, rp := u.dbRp()
+		m := u.mst()
 		ver := u.R.Intn(3)
 		name := fmt.Sprintf("%s_%04d", m, ver)
 		if m == "" {
@@ -446,7 +544,7 @@ func init() {
 		return Cmd{PB: mk(T("DropMeasurementCommand"), proto2.E_DropMeasurementCommand_Command, v), Text: fmt.Sprintf("DropMeasurement %s %s %s", tok(db), tok(rp), tok(name))}
 	})
 	reg("CreateShardGroup", T("CreateShardGroupCommand"), 14, func(u *Universe) Cmd {
-		db, rp := u.db(), u.rp()
+		db, rp := u.dbRp()
 		ts := u.timestamp()
 		tier := uint64(1 + u.R.Intn(2))
 		eng := uint32(0)
@@ -461,8 +559,8 @@ func init() {
 		return Cmd{PB: mk(T("CreateShardGroupCommand"), proto2.E_CreateShardGroupCommand_Command, v), Text: fmt.Sprintf("CreateShardGroup %s %s %d %d %d %d", tok(db), tok(rp), ts, tier, eng, ver)}
 	})
 	reg("DeleteShardGroup", T("DeleteShardGroupCommand"), 5, func(u *Universe) Cmd {
-		db, rp := u.db(), u.rp()
-		id := u.id(8)
+		db, rp := u.dbRp()
+		id := u.idOf("sg", 8)
 		var at int64
 		if u.R.Chance(30) {
 			at = 12345
@@ -475,14 +573,14 @@ func init() {
 		return Cmd{PB: mk(T("DeleteShardGroupCommand"), proto2.E_DeleteShardGroupCommand_Command, v), Text: fmt.Sprintf("DeleteShardGroup %s %s %d %d", tok(db), tok(rp), id, typ)}
 	})
 	reg("DeleteIndexGroup", T("DeleteIndexGroupCommand"), 3, func(u *Universe) Cmd {
-		db, rp := u.db(), u.rp()
-		id := u.id(6)
+		db, rp := u.dbRp()
+		id := u.idOf("ig", 6)
 		v := &proto2.DeleteIndexGroupCommand{Database: ps(db), Policy: ps(rp), IndexGroupID: pu64(id)}
 		return Cmd{PB: mk(T("DeleteIndexGroupCommand"), proto2.E_DeleteIndexGroupCommand_Command, v), Text: fmt.Sprintf("DeleteIndexGroup %s %s %d", tok(db), tok(rp), id)}
 	})
 	reg("PruneGroups", T("PruneGroupsCommand"), 6, func(u *Universe) Cmd {
 		sg := u.R.Chance(65)
-		id := u.id(16)
+		id := u.idOf(map[bool]string{true: "shard", false: "index"}[sg], 16)
 		v := &proto2.PruneGroupsCommand{ShardGroup: pb(sg), ID: pu64(id)}
 		return Cmd{PB: mk(T("PruneGroupsCommand"), proto2.E_PruneGroupsCommand_Command, v), Text: fmt.Sprintf("PruneGroups %s %d", b01(sg), id)}
 	})
@@ -505,8 +603,8 @@ func init() {
 		return Cmd{PB: mk(T("CreateDbPtViewCommand"), proto2.E_CreateDbPtViewCommand_Command, v), Text: "CreateDbPtView " + tok(db)}
 	})
 	reg("UpdateShardInfoTier", T("UpdateShardInfoTierCommand"), 2, func(u *Universe) Cmd {
-		db, rp := u.db(), u.rp()
-		id := u.id(16)
+		db, rp := u.dbRp()
+		id := u.idOf("shard", 16)
 		tier := uint64(1 + u.R.Intn(3))
 		v := &proto2.UpdateShardInfoTierCommand{ShardID: pu64(id), Tier: pu64(tier), DbName: ps(db), RpName: ps(rp)}
 		return Cmd{PB: mk(T("UpdateShardInfoTierCommand"), proto2.E_UpdateShardInfoTierCommand_Command, v), Text: fmt.Sprintf("UpdateShardInfoTier %d %d %s %s", id, tier, tok(db), tok(rp))}
@@ -551,12 +649,12 @@ func init() {
 	}
 	un("CreateSubscription", "CreateSubscriptionCommand", 2, proto2.E_CreateSubscriptionCommand_Command, func(u *Universe) (interface{}, string) {
 		n := []string{"sub0", "sub1"}[u.R.Intn(2)]
-		db, rp := u.db(), u.rp()
+		db, rp := u.dbRp()
 		return &proto2.CreateSubscriptionCommand{Name: ps(n), Database: ps(db), RetentionPolicy: ps(rp), Mode: ps("ALL"), Destinations: []string{"http://h:1"}}, fmt.Sprint(n, " ", db, " ", rp)
 	})
 	un("DropSubscription", "DropSubscriptionCommand", 2, proto2.E_DropSubscriptionCommand_Command, func(u *Universe) (interface{}, string) {
 		n := []string{"sub0", "sub1", ""}[u.R.Intn(3)]
-		db, rp := u.db(), u.rp()
+		db, rp := u.dbRp()
 		return &proto2.DropSubscriptionCommand{Name: ps(n), Database: ps(db), RetentionPolicy: ps(rp)}, fmt.Sprint(n, " ", db, " ", rp)
 	})
 	un("SetData", "SetDataCommand", 1, proto2.E_SetDataCommand_Command, func(u *Universe) (interface{}, string) {
@@ -572,7 +670,7 @@ func init() {
 		return &proto2.CreateMetaNodeCommand{HTTPAddr: ps(h + ":8091"), RPCAddr: ps(h + ":8092"), TCPAddr: ps(tcp), Rand: pu64(uint64(u.R.Intn(5)))}, tcp
 	})
 	un("DeleteMetaNode", "DeleteMetaNodeCommand", 1, proto2.E_DeleteMetaNodeCommand_Command, func(u *Universe) (interface{}, string) {
-		id := u.id(6)
+		id := u.idOf("metanode", 6)
 		return &proto2.DeleteMetaNodeCommand{ID: pu64(id)}, fmt.Sprint(id)
 	})
 	un("SetMetaNode", "SetMetaNodeCommand", 1, proto2.E_SetMetaNodeCommand_Command, func(u *Universe) (interface{}, string) {
@@ -584,29 +682,32 @@ func init() {
 		return &proto2.CreateSqlNodeCommand{HTTPAddr: ps(h + ":8086"), GossipAddr: ps(h + ":8011")}, h
 	})
 	un("DeleteDataNode", "DeleteDataNodeCommand", 1, proto2.E_DeleteDataNodeCommand_Command, func(u *Universe) (interface{}, string) {
-		id := u.id(6)
+		id := u.idOf("node", 6)
 		return &proto2.DeleteDataNodeCommand{ID: pu64(id)}, fmt.Sprint(id)
 	})
 	un("ReSharding", "ReShardingCommand", 2, proto2.E_ReShardingCommand_Command, func(u *Universe) (interface{}, string) {
-		db, rp := u.db(), u.rp()
-		id := u.id(8)
+		db, rp := u.dbRp()
+		id := u.idOf("sg", 8)
+		if last := u.lastGroupOf(db, rp); last != 0 && u.R.Chance(60) {
+			id = last
+		}
 		ts := u.timestamp()
 		return &proto2.ReShardingCommand{Database: ps(db), RpName: ps(rp), ShardGroupID: pu64(id), SplitTime: p64(ts), ShardBounds: []string{"m"}}, fmt.Sprint(db, " ", rp, " ", id, " ", ts)
 	})
 	un("UpdateNodeStatus", "UpdateNodeStatusCommand", 3, proto2.E_UpdateNodeStatusCommand_Command, func(u *Universe) (interface{}, string) {
-		id := u.id(5)
+		id := u.idOf("node", 5)
 		st := int32(u.R.Intn(4))
 		lt := uint64(u.R.Intn(6))
 		return &proto2.UpdateNodeStatusCommand{ID: pu64(id), Status: p32(st), Ltime: pu64(lt), GossipAddr: ps("8011")}, fmt.Sprint(id, " ", st, " ", lt)
 	})
 	un("UpdateSqlNodeStatus", "UpdateSqlNodeStatusCommand", 2, proto2.E_UpdateSqlNodeStatusCommand_Command, func(u *Universe) (interface{}, string) {
-		id := u.id(6)
+		id := u.idOf("sqlnode", 6)
 		st := int32(u.R.Intn(4))
 		lt := uint64(u.R.Intn(6))
 		return &proto2.UpdateSqlNodeStatusCommand{ID: pu64(id), Status: p32(st), Ltime: pu64(lt), GossipAddr: ps("8011")}, fmt.Sprint(id, " ", st, " ", lt)
 	})
 	un("UpdateMetaNodeStatus", "UpdateMetaNodeStatusCommand", 2, proto2.E_UpdateMetaNodeStatusCommand_Command, func(u *Universe) (interface{}, string) {
-		id := u.id(6)
+		id := u.idOf("metanode", 6)
 		st := int32(u.R.Intn(4))
 		lt := uint64(u.R.Intn(6))
 		return &proto2.UpdateMetaNodeStatusCommand{ID: pu64(id), Status: p32(st), Ltime: pu64(lt), GossipAddr: ps("8011")}, fmt.Sprint(id, " ", st, " ", lt)
@@ -639,19 +740,19 @@ func init() {
 		return v, fmt.Sprint(db, " pt", pt, " owner", owner, " st", st)
 	})
 	un("CreateDownSamplePolicy", "CreateDownSamplePolicyCommand", 2, proto2.E_CreateDownSamplePolicyCommand_Command, func(u *Universe) (interface{}, string) {
-		db, rp := u.db(), u.rp()
+		db, rp := u.dbRp()
 		info := &proto2.DownSamplePolicyInfo{Duration: p64(Day), Calls: []*proto2.DownSampleOperators{{AggOps: []string{"max"}, DataType: p64(1)}},
 			DownSamplePolicies: []*proto2.DownSamplePolicy{{SampleInterval: p64(Hour), TimeInterval: p64(Hour), WaterMark: p64(Hour)}}}
 		return &proto2.CreateDownSamplePolicyCommand{DownSamplePolicyInfo: info, Database: ps(db), Name: ps(rp)}, db + " " + rp
 	})
 	un("DropDownSamplePolicy", "DropDownSamplePolicyCommand", 1, proto2.E_DropDownSamplePolicyCommand_Command, func(u *Universe) (interface{}, string) {
-		db, rp := u.db(), u.rp()
+		db, rp := u.dbRp()
 		all := u.R.Chance(30)
 		return &proto2.DropDownSamplePolicyCommand{Database: ps(db), RpName: ps(rp), DropAll: pb(all)}, fmt.Sprint(db, " ", rp, " ", all)
 	})
 	un("UpdateShardDownSampleInfo", "UpdateShardDownSampleInfoCommand", 2, proto2.E_UpdateShardDownSampleInfoCommand_Command, func(u *Universe) (interface{}, string) {
-		db, rp := u.db(), u.rp()
-		id := u.id(16)
+		db, rp := u.dbRp()
+		id := u.idOf("shard", 16)
 		lvl := int64(u.R.Intn(3))
 		return &proto2.UpdateShardDownSampleInfoCommand{Ident: &proto2.ShardIdentifier{ShardID: pu64(id), ShardGroupID: pu64(1), OwnerDb: ps(db), OwnerPt: pu32(0), Policy: ps(rp), ShardType: ps("hash"),
 			DownSampleLevel: p64(lvl), DownSampleID: pu64(uint64(u.R.Intn(2))), ReadOnly: pb(u.R.Bool())}}, fmt.Sprint(db, " ", rp, " ", id, " ", lvl)
@@ -666,7 +767,7 @@ func init() {
 	})
 	un("CreateStream", "CreateStreamCommand", 2, proto2.E_CreateStreamCommand_Command, func(u *Universe) (interface{}, string) {
 		n := u.Streams[u.R.Intn(len(u.Streams))]
-		db, rp := u.db(), u.rp()
+		db, rp := u.dbRp()
 		si := &proto2.StreamInfo{Name: ps(n), ID: pu64(0), SrcMst: &proto2.StreamMeasurementInfo{Name: ps(u.mst()), Database: ps(db), RetentionPolicy: ps(rp)},
 			DesMst:   &proto2.StreamMeasurementInfo{Name: ps(u.mst()), Database: ps(db), RetentionPolicy: ps(rp)},
 			Interval: p64(Hour * int64(1+u.R.Intn(2))), Delay: p64(0), Dims: []string{"t0"}, Calls: []*proto2.StreamCall{{Call: ps("sum"), Field: ps("f0"), Alias: ps("s")}}}
@@ -677,7 +778,7 @@ func init() {
 		return &proto2.DropStreamCommand{Name: ps(n)}, n
 	})
 	un("VerifyDataNode", "VerifyDataNodeCommand", 1, proto2.E_VerifyDataNodeCommand_Command, func(u *Universe) (interface{}, string) {
-		id := u.id(4)
+		id := u.idOf("node", 4)
 		return &proto2.VerifyDataNodeCommand{NodeID: pu64(id)}, fmt.Sprint(id)
 	})
 	un("ExpandGroups", "ExpandGroupsCommand", 2, proto2.E_ExpandGroupsCommand_Command, func(u *Universe) (interface{}, string) {
@@ -711,12 +812,12 @@ func init() {
 		return &proto2.NotifyCQLeaseChangedCommand{}, ""
 	})
 	un("SetNodeSegregateStatus", "SetNodeSegregateStatusCommand", 1, proto2.E_SetNodeSegregateStatusCommand_Command, func(u *Universe) (interface{}, string) {
-		id := u.id(4)
+		id := u.idOf("node", 4)
 		st := uint64(u.R.Intn(3))
 		return &proto2.SetNodeSegregateStatusCommand{Status: []uint64{st}, NodeIds: []uint64{id}}, fmt.Sprint(id, " ", st)
 	})
 	un("RemoveNode", "RemoveNodeCommand", 1, proto2.E_RemoveNodeCommand_Command, func(u *Universe) (interface{}, string) {
-		id := u.id(4)
+		id := u.idOf("node", 4)
 		return &proto2.RemoveNodeCommand{NodeIds: []uint64{id}}, fmt.Sprint(id)
 	})
 	un("UpdateReplication", "UpdateReplicationCommand", 1, proto2.E_UpdateReplicationCommand_Command, func(u *Universe) (interface{}, string) {
@@ -724,28 +825,29 @@ func init() {
 		return &proto2.UpdateReplicationCommand{Database: ps(db), RepGroupId: pu32(0), MasterId: pu32(uint32(u.R.Intn(2))), Peers: []*proto2.Peer{{ID: pu32(1), Role: pu32(1)}}}, db
 	})
 	un("UpdateMeasurement", "UpdateMeasurementCommand", 2, proto2.E_UpdateMeasurementCommand_Command, func(u *Universe) (interface{}, string) {
-		db, rp, m := u.db(), u.rp(), u.mst()
+		db, rp := u.dbRp()
+		m := u.mst()
 		ttl := []int64{1, 7, Day, 3 * Day}[u.R.Intn(4)]
 		return &proto2.UpdateMeasurementCommand{Db: ps(db), Rp: ps(rp), Mst: ps(m), Options: &proto2.Options{Ttl: p64(ttl), SplitChar: ps(";")}}, fmt.Sprint(db, " ", rp, " ", m, " ", ttl)
 	})
 	un("UpdateNodeTmpIndex", "UpdateNodeTmpIndexCommand", 2, proto2.E_UpdateNodeTmpIndexCommand_Command, func(u *Universe) (interface{}, string) {
 		role := int32(u.R.Intn(3))
 		idx := uint64(u.R.Intn(50))
-		id := u.id(5)
+		id := u.idOf("node", 5)
 		return &proto2.UpdateNodeTmpIndexCommand{Role: p32(role), Index: pu64(idx), NodeId: pu64(id)}, fmt.Sprint(role, " ", idx, " ", id)
 	})
 	un("InsertFiles", "InsertFilesCommand", 1, proto2.E_InsertFilesCommand_Command, func(u *Universe) (interface{}, string) {
 		return &proto2.InsertFilesCommand{FileInfos: []*proto2.FileInfo{{Sequence: pu64(1), MstID: pu64(1), ShardID: pu64(1)}}}, ""
 	})
 	un("UpdateIndexInfoTier", "UpdateIndexInfoTierCommand", 2, proto2.E_UpdateIndexInfoTierCommand_Command, func(u *Universe) (interface{}, string) {
-		db, rp := u.db(), u.rp()
-		id := u.id(12)
+		db, rp := u.dbRp()
+		id := u.idOf("index", 12)
 		tier := uint64(1 + u.R.Intn(3))
 		return &proto2.UpdateIndexInfoTierCommand{IndexID: pu64(id), Tier: pu64(tier), DbName: ps(db), RpName: ps(rp)}, fmt.Sprint(id, " ", tier, " ", db, " ", rp)
 	})
 	un("ReplaceMergeShards", "ReplaceMergeShardsCommand", 2, proto2.E_ReplaceMergeShardsCommand_Command, func(u *Universe) (interface{}, string) {
-		db, rp := u.db(), u.rp()
-		ids := []uint64{u.id(12), u.id(12)}
+		db, rp := u.dbRp()
+		ids := []uint64{u.idOf("shard", 12), u.idOf("shard", 12)}
 		if ids[0] > ids[1] {
 			ids[0], ids[1] = ids[1], ids[0]
 		}
